@@ -23,7 +23,7 @@ RULE = ("case = security level {noAuthNoPriv, authNoPriv MD5/SHA-1, authPriv} x 
         ">= 2 requests separated by an advance, or a reboot between requests, or a non-conformant discovery reply; distinct = "
         "SHA-1 of canonical JSON case")
 ASSUMPTIONS = [
-    "only API outcomes and datagrams are judged: local time tracking, Report-driven resynchronisation and re-discovery are all acceptable ways to stay in the window",
+    "only API outcomes and datagrams are judged: how the client keeps its notion of engine boots / time is its own business, but (the statement's words) what it SENDS stays within the window -- the one excusable untimely message is the first after a restart of the engine, which no client can foresee; recovering from it by resynchronisation or re-discovery are both fine",
     "the agent keeps a 150 s window (RFC 3414 3.2 7b) on engine boots and time; boots change on reboot and engine time restarts at 0",
     "after a refused discovery reply the client must still be usable: the next request starts with a new probe",
 ]
